@@ -11,7 +11,7 @@ theorem Dyn.congr {K : SCtx} {k : Ctx} {sub : Bool} {s s' : St} (h : Dyn K k sub
     (h5 : s'.noErrExit = s.noErrExit) (h6 : s'.errexit = s.errexit)
     (h7 : s'.inFunc = s.inFunc) (h8 : s'.inLoop = s.inLoop) :
     Dyn K k sub s' :=
-  ⟨h1 ▸ h.cerr, h2 ▸ h.csub, h3 ▸ h.fok, h4 ▸ h.ht, h5 ▸ h.eign, h6 ▸ h.noe, h7 ▸ h.sfn,
+  ⟨h1 ▸ h.cerr, ⟨fun hs => h2 ▸ h.csub.1 hs, h2 ▸ h.csub.2⟩, h3 ▸ h.fok, h4 ▸ h.ht, h5 ▸ h.eign, h6 ▸ h.noe, h7 ▸ h.sfn,
    h8 ▸ h.inl⟩
 
 /-- Commands after which the runner may already be `exiting` while `BashSem` still has to make
@@ -145,12 +145,14 @@ theorem sim_trapExit (b : Prog) (hst : Stat K k sub) (hs : supCmd K (.trapExit b
       (sem (n+1) k (.cmd (.trapExit b)) (absEnv s)) := by
   have htop : K.top = true := by
     simp [supCmd] at hs; exact hs.1
+  have hsimple : simpleTrap b = true := by
+    simp [supCmd] at hs; exact hs.2
   have hsub : sub = false := hst.top htop
   simp only [run, sem, stop_false_of_exit hx, Rel, Post]
   refine ⟨?_, ⟨hd.cerr, ?_, hd.fok, hd.ht, hd.eign, hd.noe, hd.sfn, hd.inl⟩,
     ⟨rfl, rfl, rfl⟩, ⟨rfl, rfl⟩, hp, ?_, ?_⟩
   · simp [absEnv, absEnvC]
-  · intro h; simp [hsub] at h
+  · exact ⟨fun h => by simp [hsub] at h, hsimple⟩
   · intro h; exact h.elim
   · intro _ h; simp at h
 
